@@ -47,7 +47,7 @@ FINDING_EXCLUSIONS = {
     'andassign-decl-heuristic': 'expr:returnf2(c2&=E0);:c',
     'paren-decl-heuristic': 'expr:if(i1&&pf(i2)){}:c',
     'enumerator-angle-chain': 'expr:i1=E1<b2>(i3);:c++',
-    'new-comma': 'expr:pd1=newdouble[u1],i1;:c++',
+    'new-comma': 'expr:pi1=(int*)newdouble[u1],static_cast<longdouble>(ull1);:c++',
 }
 
 
